@@ -13,15 +13,22 @@ claim("C01", PROOF + "; bounded closed-loop stand-in for the float pacers (label
 
 claim("C12", PROOF,
       "Proof: (*Histogram).Add is verified for every increasing bucket list and every latency not below the first bound: the result is counted in exactly one bucket, the one with lower-inclusive/upper-exclusive bounds (last bucket unbounded), "
-      "all other counts unchanged (whole-view postcondition), Total incremented, buckets untouched, index safety, termination of the scan.",
+      "all other counts unchanged (whole-view postcondition), Total incremented, buckets untouched, index safety, termination of the scan. (*Buckets).UnmarshalText: on success the stored bounds are exactly the parsed durations in order, with a zero bound prepended iff the first is positive, so every non-negative latency is covered. "
+      "Renderers (MarshalJSON, Buckets.Nth, the text reporter closure) are verified for every histogram the API can produce, including 'nothing added yet': no index can go out of range, one item per bucket in order carrying that bucket's bound and count.",
       "Trusted: go/ssa builder, govc, solvers. Stated assumption: fewer than 2^64 results (Total < MaxUint64). The fmt/tabwriter output characters are library code.",
       "DESIGN.md 8/C12")
+
+claim("C10", PROOF,
+      "Proof: (*Metrics).Add, (*LatencyMetrics).Add and (*Metrics).Close are verified against contracts transcribed from the documented definitions: every aggregate (request count, status-code histogram over all keys, byte totals, latency total/max/min, earliest/latest/end, success count, error set and list) is exactly one fold step of its definition with every other key/field unchanged (whole-view postconditions + frame), "
+      "under the representation invariant wf-* that Add re-establishes; Close computes every derived field (duration, wait, rate, throughput, byte means, success ratio, latency mean) as its documented expression over base fields and writes no base field, so it is idempotent and interleavable; lemmas show two fold steps commute (order independence). Percentiles are excluded (C11).",
+      "Trusted: go/ssa builder, govc, solvers, stubs of time.Time/Duration methods and strconv.Itoa, trusted contract of newTdigestEstimator, type contract of the estimator interface. Floats uninterpreted (expression equality). Stated assumptions: fewer than 2^62 results, byte and latency totals fit their types, timestamps after year 1, latency >= 0. Text/JSON renderers (fmt, encoding/json) not covered.",
+      "DESIGN.md 8/C10")
 
 claim("C18", PROOF,
       "Proof (sequential part): firstOfEachIPFamily returns at most one address per IP family, each the first of its family in the input, and modifies nothing: the frame obligation 'no element of the (cache-owned) input slice changes' is discharged for all inputs.",
       "Trusted: go/ssa builder, govc, solvers, assumed contracts of net.ParseIP / net.IP.To4 (uninterpreted isIP/isV4).",
       "DESIGN.md 8/C18")
 
-for p in ["C02","C03","C04","C05","C06","C07","C08","C09","C10","C13","C14","C15","C16","C17","C19","C20"]:
+for p in ["C02","C03","C04","C05","C06","C07","C08","C09","C13","C14","C15","C16","C17","C19","C20"]:
     na(p, "check not built yet (contracts planned in DESIGN.md section 8; engine features pending)")
 na("C11", "not applicable to contract-based verification: the property is the numerical accuracy of the external floating-point t-digest estimator (github.com/influxdata/tdigest); the in-repo code is three one-line delegations, so a contract could only restate an assumed contract of the library, which is the property itself (DESIGN.md section 9)")
